@@ -187,9 +187,10 @@ def exclusive(n: int, a0: bool, a1: bool) -> bool:
 
 def conditions(tier):
     conds = []
-    nj = 2 if tier == "quick" else 3
     for e0 in range(3):
         for e1 in range(3):
+            # three jobs only for the ending pairs where an aborted run follows or precedes a normal one
+            nj = 3 if (tier == "thorough" and (e0, e1) in ((0, 1), (1, 0), (2, 0))) else 2
             for f in range(2 ** nj):
                 first = [bool(f & 1), bool(f & 2), bool(f & 4)]
                 conds.append({"name": f"index/e{e0}{e1}/first{f}", "func": "index", "shard": {"runs": 2, "jobs": nj, "endings": [e0, e1], "first": first}, "timeout": 600 if tier == "quick" else 3000})
